@@ -30,6 +30,7 @@ def r05_1(ctx):
     ctx.analysed(f.qual)
     result = c01.result_var(f.node, "_cached_bool_val")
     paths = c01.bool_value_paths(f.node, result, 1)
+    vv = c01.vis_var(f.node)
     n_choice = 0
     bad: Dict[str, Tuple[str, int]] = {}
     for p, status in paths:
@@ -48,12 +49,12 @@ def r05_1(ctx):
                     txt = ast.unparse(v).replace(" ", "")
                     if txt != "2ifself.choice.selectionisselfelse0":
                         bad.setdefault("member value is not identity with the selection", (f"value is {ast.unparse(v)}", ln))
-                    if not any(c == "vis == 2" and pol for c, pol, _, _ in p.conds):
+                    if not any(c == f"{vv} == 2" and pol for c, pol, _, _ in p.conds):
                         bad.setdefault("selection identity not under vis == 2", ("", ln))
                 elif k == "USER":
                     bad.setdefault("user value decides a member directly", ("a member takes its own user value", ln))
             if e[0] == "CONST" and e[2] not in (0,):
-                if any(c == "vis == 2" and pol for c, pol, _, _ in p.conds):
+                if any(c == f"{vv} == 2" and pol for c, pol, _, _ in p.conds):
                     bad.setdefault("constant y for a member in y-mode", (f"val = {e[2]} under vis == 2", e[1]))
     if n_choice < 2:
         raise AnalysisError(f"only {n_choice} choice-member paths in Symbol.bool_value")
